@@ -544,6 +544,34 @@ let pq_family (dir : string) =
     | _ -> failwith ("bad line: " ^ line)) lines;
   close_out oc
 
+
+(* ---------------- family "pty" ---------------- *)
+(* the bytes a pseudo terminal received, read by the proved lexer (Vt.lex) and applied to a screen of the
+   terminal's height (Vt.tok_step); prints the lines left on the terminal (scrollback included), top first *)
+let pty_family (dir : string) =
+  let lines = read_lines (Filename.concat dir "cases.txt") in
+  let oc = open_out (Filename.concat dir "model.txt") in
+  let k = ref 0 and h = ref 0 in
+  List.iter (fun line ->
+    match tokens line with
+    | "case" :: kk :: rows :: _ -> k := int_of_string kk; h := int_of_string rows
+    | ["raw"; csv] ->
+        let bs = List.map cz (List.filter (fun x -> x <> "") (String.split_on_char ',' csv)) in
+        (match lex (LGround []) bs with
+         | None -> Printf.fprintf oc "%d OUTSIDE\n" !k
+         | Some (st, toks) ->
+             let (above, below) = List.fold_left (fun s t -> tok_step (czi !h) s t) ([], []) toks in
+             let pr l = String.concat "," (List.map zs l) in
+             (match st with
+              | LGround [] -> ()
+              | _ -> Printf.fprintf oc "%d PARTIAL\n" !k);
+             List.iter (fun l -> Printf.fprintf oc "%d L %s\n" !k (pr l)) above;
+             List.iter (fun l -> Printf.fprintf oc "%d B %s\n" !k (pr l)) below;
+             Printf.fprintf oc "%d END\n" !k)
+    | ["raw"] -> Printf.fprintf oc "%d END\n" !k
+    | _ -> ()) lines;
+  close_out oc
+
 let () =
   match Array.to_list Sys.argv with
   | [_; "bar"; dir] -> bar_family dir
@@ -553,4 +581,5 @@ let () =
   | [_; "fmt"; dir] -> fmt_family dir
   | [_; "conc"; dir] -> conc_family dir
   | [_; "pq"; dir] -> pq_family dir
+  | [_; "pty"; dir] -> pty_family dir
   | _ -> prerr_endline "usage: mpbmodel <family> <dir>"; exit 2
